@@ -303,3 +303,51 @@ def markpos_rule(ctx, rep, rid="MARKPOS"):
                     rep.ok(rid, "%s %s: mark for the creation at %s lies inside the rule's node" % (inst.label, fn, site(b, pt).rsplit("/", 1)[-1]))
     rep.count("creations from a mark in functions with an own node", n)
     rep.floor(rid, 8, "creations")
+
+
+# -------------------------------------------------------------------------------------------------
+# N2: the created-callback announces the kind that was just closed (C02)
+# -------------------------------------------------------------------------------------------------
+def callback_rule(ctx, rep, rid="N2"):
+    rep.rule(rid, "DOM+PROV: every `create_node_<k>` callback in generated rule code is dominated by a close whose kind is the constant Rule::<K> "
+                  "(PascalCase of k), and the generic `create_node(kind, ..)` is handed the same kind variable as the nearest dominating close: "
+                  "when a node-created callback fires, the announced node already has the announced kind")
+    n = 0
+    for inst in ctx.instances(with_corpus=True):
+        for rule, b in inst.all_rule_bodies():
+            pr = P(b)
+            closes = []
+            for pt, name, decl, args, t in calls(b):
+                if name.endswith("Parser::close") or name.endswith("Parser::close_root"):
+                    closes.append((pt, args[2] if len(args) > 2 else None))
+            for pt, name, decl, args, t in calls(b):
+                m = re.search(r"(?:Parser|ParserCallbacks[^:]*)::create_node(_\w+)?$", name)
+                if not m or name.endswith("create_node_error") and False:
+                    continue
+                doms = [(cp, k) for cp, k in closes if cp[0] != pt[0] and b.dominates(cp[0], pt[0])]
+                fn = b.name.split("::parser::")[-1]
+                n += 1
+                if not doms:
+                    rep.violation(rid, "%s|%s|%s|no-close" % (inst.label, fn, name.split("::")[-1]), "%s: in %s the callback %s is not preceded by a close on every path: "
+                                  "a node would be announced before it exists with its kind and extent" % (inst.label, fn, name.split("::")[-1]), site(b, pt))
+                    continue
+                # nearest dominating close
+                cp, k = max(doms, key=lambda d: sum(1 for d2 in doms if b.dominates(d2[0][0], d[0][0])))
+                if m.group(1):
+                    want = pascal(m.group(1)[1:])
+                    got = k[1][2] if (k is not None and k[0] == "agg" and k[1][0] == "adt") else None
+                    if got == want:
+                        rep.ok(rid, "%s %s: create_node%s after close(Rule::%s)" % (inst.label, fn, m.group(1), want))
+                    else:
+                        rep.violation(rid, "%s|%s|create_node%s|kind" % (inst.label, fn, m.group(1)), "%s: in %s the callback create_node%s fires after a close with kind %s, not Rule::%s: "
+                                      "the announced node does not have the announced kind" % (inst.label, fn, m.group(1), show(k, 40) if k else "?", want), site(b, pt))
+                else:
+                    ka = args[1] if len(args) > 1 else None
+                    same = ka is not None and k is not None and ((ka[0] == "local" and k[0] == "local" and ka[1] == k[1]) or ka == k)
+                    if same:
+                        rep.ok(rid, "%s %s: create_node(kind) with the kind of the preceding close" % (inst.label, fn))
+                    else:
+                        rep.violation(rid, "%s|%s|create_node|kind" % (inst.label, fn), "%s: in %s the generic created callback is handed `%s` but the preceding close used `%s`"
+                                      % (inst.label, fn, show(ka, 40) if ka else "?", show(k, 40) if k else "?"), site(b, pt))
+    rep.count("created callbacks", n)
+    rep.floor(rid, 500, "created callbacks")
